@@ -13,7 +13,8 @@
    including every panic (guards, size mismatches inside the operators, index panics of the CSC products, DivZero of an
    exact arithmetic) in the same place.  No hypothesis. *)
 From Coq Require Import List Arith ZArith Lia Bool.
-From OV Require Import Base.Panic Base.Arith Model.Vector Model.Matrix Model.Sparse Model.Iter gen.SrcPrelude gen.SrcIter Proofs.SrcEqBase.
+From OV Require Import Base.Panic Base.Arith Model.Vector Model.Matrix Model.Sparse Model.Iter gen.SrcPrelude gen.SrcIter gen.SrcSparse gen.SrcVec64
+  Proofs.SrcEqBase Proofs.SrcEqVec64.
 Import ListNotations.
 
 Section SrcEqIter.
@@ -167,6 +168,19 @@ Proof.
        rewrite Nat.add_1_r; unfold vadd_assign, vsub_assign; cbv zeta; it_eq.
 Qed.
 
+(* ------------------------------------------------------------------ the callees the call table names
+   Sparse::multiply / transpose_multiply (sp_mul / sp_tmul) and the Vector operators are tied to their own sources in
+   Proofs/SrcEqSparse.v and Proofs/SrcEqVector.v.  The two remaining ones: *)
+(* identity_preconditioner: the regenerated function (gen/SrcSparse.v) is the model's ident_pre *)
+Lemma callee_ident_pre (s : sparse A) (b x : list TF) : s_sp_ident_pre s b x = ident_pre (sp_rows s) b x.
+Proof. reflexivity. Qed.
+(* Vector<f64>::norm_2: the regenerated function (gen/SrcVec64.v; f64::abs instantiated by the arithmetic's abs) is the model's
+   norm2 under the reading  powf(y, 2.0) = y * y  of the libm call -- the one place where Model/Iter.v departs from the text
+   of the source (Model/Vector.v states the same) *)
+Lemma callee_norm2 (powf : F -> F -> F) (v : list TF) :
+  (forall y : TF, powf y (add one one) = mul y y) -> s_norm_2 abs powf v = Ok (norm2 v).
+Proof. intros H. rewrite (src_norm_2 abs powf v H). reflexivity. Qed.
+
 Definition model_is_source_Iter : Prop :=
   (forall (s : sparse A) (b x : list TF) (n : nat) (tol : TF),
      s_solve_cg s b x n tol = let* o := run_sparse CG s b x n tol in Ok (er o)) /\
@@ -175,8 +189,11 @@ Definition model_is_source_Iter : Prop :=
   (forall (s : sparse A) (b x : list TF) (n : nat) (tol : TF),
      s_solve_bicgstab s b x n tol = let* o := run_sparse BiCGSTAB s b x n tol in Ok (er o)) /\
   (forall (s : sparse A) (b x : list TF) (n : nat) (tol : TF),
-     s_solve_qmr s b x n tol = let* o := run_sparse QMR s b x n tol in Ok (er o)).
+     s_solve_qmr s b x n tol = let* o := run_sparse QMR s b x n tol in Ok (er o)) /\
+  (forall (s : sparse A) (b x : list TF), s_sp_ident_pre s b x = ident_pre (sp_rows s) b x) /\
+  (forall (powf : F -> F -> F) (v : list TF),
+     (forall y : TF, powf y (add one one) = mul y y) -> s_norm_2 abs powf v = Ok (norm2 v)).
 Lemma model_is_source_Iter_lemma : model_is_source_Iter.
-Proof. exact (conj src_solve_cg (conj src_solve_bicg (conj src_solve_bicgstab src_solve_qmr))). Qed.
+Proof. exact (conj src_solve_cg (conj src_solve_bicg (conj src_solve_bicgstab (conj src_solve_qmr (conj callee_ident_pre callee_norm2))))). Qed.
 
 End SrcEqIter.
